@@ -36,8 +36,9 @@ fn frontiers(w: &World, slot: usize) -> BTreeMap<usize, (u64, u64)> {
 fn deliverable(w: &World, a: usize, b: usize) -> Option<usize> {
     let sa = &w.slots[a].snap;
     let sb = &w.slots[b].snap;
+    let (sched_a, sched_b) = (w.sched_now(a), w.sched_now(b));
     for (&x, ca) in &sa.copies {
-        if sa.sched.contains(&x) || sb.sched.contains(&x) {
+        if sched_a.contains(&x) || sched_b.contains(&x) {
             continue;
         }
         if w.members[x].cluster != w.members[w.slots[b].member].cluster {
@@ -64,11 +65,12 @@ fn deliverable(w: &World, a: usize, b: usize) -> Option<usize> {
 fn blocked(w: &World, a: usize, b: usize) -> bool {
     let sa = &w.slots[a].snap;
     let sb = &w.slots[b].snap;
+    let (sched_a, sched_b) = (w.sched_now(a), w.sched_now(b));
     for (&y, ca) in &sa.copies {
-        if sa.sched.contains(&y) {
+        if sched_a.contains(&y) {
             continue;
         }
-        if sb.sched.contains(&y) {
+        if sched_b.contains(&y) {
             return true;
         }
         if !sb.copies.contains_key(&y) {
@@ -156,7 +158,7 @@ pub fn monitored_handshake(w: &mut World, a: usize, b: usize) {
     let pre_b = frontiers(w, b);
     let deliver = deliverable(w, a, b).or(deliverable(w, b, a));
     let skip = w.cfg.big_values && (blocked(w, a, b) || blocked(w, b, a));
-    let sched_a = w.slots[a].snap.sched.clone();
+    let sched_a = w.sched_now(a);
     let a_copies_pre = w.slots[a].snap.copies.clone();
     // the SYN as put on the wire
     let Some(syn) = w.emit_syn(a) else { return };
